@@ -83,7 +83,7 @@ def run_history(fam, params, r, length):
     first = {}
     stats = {"calls": 0, "overwrites": 0, "repeats": 0, "strided": 0}
     for step in range(length):
-        kind = r.choice(kinds)
+        kind = kinds[step] if step < len(kinds) else r.choice(kinds)     # every kind of product occurs at least once
         if kind == "apply":
             # Regression/LinearRegression.apply(t, x): evaluate at other locations; must not change later products
             t2 = np.asarray(op.taxis, dtype=float) + 0.5 * (1 + r.randrange(3))
@@ -110,7 +110,7 @@ def run_history(fam, params, r, length):
         cols = [conv(W, pool[i]) for i in idx]
         if len(cols) == 1:
             x = cols[0].copy()
-            if r.random() < 0.3:                    # strided (non-contiguous) view of the same values
+            if step >= len(kinds) and r.random() < 0.3:     # later calls: sometimes a strided (non-contiguous) view of the same values
                 buf = np.zeros(2 * len(x), dtype=x.dtype)
                 buf[::2] = x
                 x = buf[::2]
@@ -250,7 +250,7 @@ def main(tier):
     res = oprun.run(tier)
     recs = res["recs"]
     known = [k for k in common.load_known() if k.get("property") == PID]
-    length = 8 if tier == "quick" else 20
+    length = 10 if tier == "quick" else 20
     nhist = 1 if tier == "quick" else 4
     t0 = time.time()
     items, meta = [], {}
